@@ -800,7 +800,10 @@ def gen_world(rng, layout: str, **opt: Any) -> dict:
     W['pak'] = [(n, d) for n, d in W['pak'] if not (n in seen_names or seen_names.add(n))]
     # game lumps
     ver = opt.get('sprp') or rng.choice(sprp_versions_for(layout))
-    W['sprp'] = gen_sprp(rng, ver, len(leafs), cnt(0, 3) if 'sprp_props' not in opt else opt['sprp_props'], wide)
+    n_sprp = cnt(0, 3) if 'sprp_props' not in opt else opt['sprp_props']
+    if n_sprp == 0 and 'sprp_props' in opt and ver.startswith('V_LIGHTMAP'):
+        n_sprp = 1   # an EMPTY lump cannot say which variant of its version number it is: only the standard layouts may be empty
+    W['sprp'] = gen_sprp(rng, ver, len(leafs), n_sprp, wide)
     W['dprp'] = gen_dprp(rng, cnt(0, 4), len(leafs))
     lz_game = opt.get('lzma_game', rng.random() < 0.35)
     gl = [{'id': b'sprp', 'flags': (1 if lz_game and rng.random() < 0.7 else 0) | rng.choice((0, 0, 0x2, 0x8000)),
